@@ -184,8 +184,8 @@ func c36(c *Ctx) {
 					}
 				}
 				sort.Strings(missing)
-				c.Check(len(missing) == 0 && Term(call.Call.Args[0]) == "$2.Type", "type-registry", construct, call.Pos(), "default case, stores hdr.Type",
-					"reachable with hdr.Type equal to the constant of: "+strings.Join(missing, ",")+"; recordType argument "+Term(call.Call.Args[0]))
+				c.Check(len(missing) == 0 && Term(BaselineArgs(&call.Call)[0]) == "$2.Type", "type-registry", construct, call.Pos(), "default case, stores hdr.Type",
+					"reachable with hdr.Type equal to the constant of: "+strings.Join(missing, ",")+"; recordType argument "+Term(BaselineArgs(&call.Call)[0]))
 				return
 			}
 			k, ok := realType[boxedT]
@@ -394,7 +394,7 @@ func resultOf(v ssa.Value, idx int, callee string) bool {
 func argResultOf(i, idx int, callee string) func(ssa.Instruction) bool {
 	return func(in ssa.Instruction) bool {
 		ci, ok := in.(ssa.CallInstruction)
-		return ok && i < len(ci.Common().Args) && resultOf(ci.Common().Args[i], idx, callee)
+		return ok && i < len(BaselineArgs(ci.Common())) && resultOf(BaselineArgs(ci.Common())[i], idx, callee)
 	}
 }
 
@@ -437,9 +437,9 @@ func fixLenArgs(c *Ctx, fnn string) {
 	hp := "(*" + dm + "ResourceHeader).pack"
 	c.Count(fnn, fl.Where("lenOff = offset returned by the header packer", argResultOf(2, 1, hp)).
 		Where("preLen = len(message returned by the header packer)", func(in ssa.Instruction) bool {
-			args := in.(ssa.CallInstruction).Common().Args
+			args := BaselineArgs(in.(ssa.CallInstruction).Common())
 			call, ok := args[3].(*ssa.Call)
-			return ok && CalleeName(&call.Call) == "builtin:len" && resultOf(call.Call.Args[0], 0, hp)
+			return ok && CalleeName(&call.Call) == "builtin:len" && resultOf(BaselineArgs(&call.Call)[0], 0, hp)
 		}), 1, 1)
 	c.ArgFrom(fnn, fl, 1, "the body packer's output", func(v ssa.Value) bool {
 		call, ok := v.(*ssa.Call)
